@@ -167,6 +167,12 @@ def body_multi(case):
             path = MULTI_PATHS[pi % len(MULTI_PATHS)]
             g, data, axes = grids[gi % len(grids)]
             names = list(case["grids"][gi % len(grids)]["names"])
+            if len(op) > 4 and op[4] and model:
+                # the file is removed and started anew under the same name (no overwrite flag: nothing is there to overwrite)
+                os.remove(fn)
+                model.clear()
+                labels.add("file_removed_and_recreated")
+                twin, ow = None, False
             again = path in model
             if twin and again:
                 # the table at this path is regenerated: same shape and axis names, other values and / or another dtype
@@ -500,13 +506,13 @@ SUBCHECKS = [
         st.fixed_dictionaries(
             {
                 "grids": st.lists(grid_case(float_only=True, min_side=2), min_size=1, max_size=3),
-                "ops": st.lists(st.tuples(st.integers(0, 7), st.integers(0, 2), st.booleans(), st.one_of(st.none(), st.lists(st.integers(0, 5), min_size=2, max_size=2))).map(list), min_size=2, max_size=6),
+                "ops": st.lists(st.tuples(st.integers(0, 7), st.integers(0, 2), st.booleans(), st.one_of(st.none(), st.lists(st.integers(0, 5), min_size=2, max_size=2)), st.sampled_from([False, False, False, False, True])).map(list), min_size=2, max_size=6),
             }
         ),
         body_multi,
         lambda labels: "several_grids_in_one_file" in labels and "path_overwritten" in labels,
         {"quick": 150, "thorough": 6000},
-        doc="model-based history on ONE HDF5 file: grids written at generated nested paths in generated order, rewritten with overwrite (other grids, and the same table regenerated with the same shape but other values / dtypes); after every write every stored grid reads back as last written (dict model); a slice written to HDF5 / FITS reads back as the slice",
+        doc="model-based history on ONE HDF5 file: grids written at generated nested paths in generated order, rewritten with overwrite (other grids, and the same table regenerated with the same shape but other values / dtypes; the file removed and re-created under the same name); after every write every stored grid reads back as last written (dict model); a slice written to HDF5 / FITS reads back as the slice",
     ),
     SubCheck(
         "slice",
